@@ -246,7 +246,13 @@ def oer_part(run, model, mods, cases, rng, tier):
                 lines.append("dec %s oer %s" % (c["tn"], b.hex()))
                 meta.append((c, lab, b, getattr(e, "long_qty", False)))
         out = run_mod(run, m, lines, "C03-oer")
-        rcm, mout, merr = run_lines(model, ["oerdec %s %s" % (c["ts"], b.hex()) for (c, lab, b, lq) in meta], timeout=1200)
+        # long-form quantity lengths are outside the reference decoder (it reads the quantity's length as one
+        # octet and would then count to an astronomically large number): those variants go to the C only
+        midx = [i for i, (c, lab, b, lq) in enumerate(meta) if not lq]
+        rcm, mo2, merr = run_lines(model, ["oerdec %s %s" % (meta[i][0]["ts"], meta[i][2].hex()) for i in midx], timeout=1200)
+        mout = ["(not run)"] * len(meta)
+        for i, o2 in zip(midx, mo2):
+            mout[i] = o2
         for (c, lab, b, lq), l, o, mo in zip(meta, lines, out, mout):
             run.case(l)
             run.count("oer_" + lab)
